@@ -1163,6 +1163,13 @@ func i8Prop(c i8Case, r *pbt.R) error {
 			} else if in && !(hi <= num && num <= lo) {
 				// empty interval: false, or membership in the swapped interval
 				bad = fmt.Errorf("InRange[int8](%d, %d, %d) = true but the number lies outside both [lo,hi] and [hi,lo]", num, lo, hi)
+			} else if in {
+				// lo > hi and true: only acceptable as ONE consistent reading (bounds given in either order), i.e. the
+				// whole swapped interval answers true - in particular both of its ends
+				if !gogu.InRange(lo, lo, hi) || !gogu.InRange(hi, lo, hi) {
+					bad = fmt.Errorf("InRange[int8](%d, %d, %d) = true although lo > hi, yet InRange(%d, ...) = %v and InRange(%d, ...) = %v: neither the defining inequalities lo <= num <= hi nor the interval with swapped bounds",
+						num, lo, hi, lo, gogu.InRange(lo, lo, hi), hi, gogu.InRange(hi, lo, hi))
+				}
 			}
 			if num != math.MinInt8 && bad == nil {
 				a := gogu.Abs(num)
@@ -1291,6 +1298,11 @@ func numRun[T number](num, lo, hi T, typ string, r *pbt.R) error {
 		}
 	} else if in && !(hi <= num && num <= lo) {
 		return fmt.Errorf("InRange[%s](%v, %v, %v) = true but the number lies outside both [lo,hi] and [hi,lo]", typ, num, lo, hi)
+	} else if in {
+		// lo > hi and true: only acceptable as one consistent reading (bounds in either order): both ends must answer true too
+		if a, b := gogu.InRange(lo, lo, hi), gogu.InRange(hi, lo, hi); !a || !b {
+			return fmt.Errorf("InRange[%s](%v, %v, %v) = true although lo > hi, yet InRange(lo, ...) = %v and InRange(hi, ...) = %v: neither the defining inequalities lo <= num <= hi nor the interval with swapped bounds", typ, num, lo, hi, a, b)
+		}
 	}
 	if !typeMin {
 		if ab < 0 || (num >= 0 && ab != num) || (num < 0 && ab != -num) {
@@ -1751,7 +1763,7 @@ func TestProp(t *testing.T) {
 		&pbt.Check[i8Case]{
 			Name: "int8",
 			Rule: "every int8 triple: one case is a pair (lo, hi), the property loops over all 256 values of num (so 65536 cases = 16777216 triples). Clamp(num,lo,hi) asserted for lo <= hi (num inside -> num, below -> lo, above -> hi); " +
-				"InRange(num,lo,hi) == (lo <= num <= hi) for lo <= hi, and for lo > hi it must be false or membership in the swapped interval; Abs(num) >= 0 and equal to num or -num for every num except -128. " +
+				"InRange(num,lo,hi) == (lo <= num <= hi) for lo <= hi, and for lo > hi it must be false, or - consistently for the whole pair - membership in the swapped interval (a true answer is only accepted if both ends of the swapped interval answer true as well); Abs(num) >= 0 and equal to num or -num for every num except -128. " +
 				"Non-trivial = lo <= hi.",
 			Enum: i8Enum, Prop: i8Prop,
 		},
